@@ -1,3 +1,4 @@
 import Driver.Tok
 import Driver.LuCheck
+import Driver.PivotEng
 import Driver.Main
